@@ -745,6 +745,22 @@ def body_table(ctx: core.Ctx, case: dict):
 
         elif kind in ('out_m_hi', 'out_m_lo'):
             if ph == 'descent':
+                # the descent table does not depend on mass: any mass, also one outside the masses of the other phases
+                # (the trajectory builder descends with whatever the aircraft weighs), gives the tabulated value
+                mo = m_hi * (1.5 + q['u']) if kind == 'out_m_hi' else m_lo * 0.5 * q['u']
+                if not values_ok or not mo > 0:
+                    continue
+                try:
+                    ref_v = ev(fl / L.M2FL, m_mid, ph, record=False)
+                    got = ev(fl / L.M2FL, mo, ph, record=False)
+                except Exception as e:  # noqa: BLE001
+                    soft_fail_exc(ctx, 'interp.raised', e, 'descent.mass_outside_other_phases')
+                    return
+                ctx.label('query.descent_mass_outside_other_phases')
+                if got != ref_v:
+                    soft_fail(ctx, 'depends.mass_in_descent', 'mismatch', 'legacy.interpolate', 'descent',
+                             f'descent FL={fl}: mass {mo} gives {got}, nominal mass gives {ref_v}')
+                    return
                 continue
             if kind == 'out_m_hi':
                 mo = m_hi * (1.5 + q['u']) if q['far'] else m_hi * (1 + 1e-6)
